@@ -60,6 +60,7 @@ type gctx struct {
 	nextID int
 	scope  []*frame
 	inGen  bool
+	noYield int // > 0 inside a loop that is generated without any yield (it stays a native loop in the compiled code)
 	elem   string
 	loops  int // enclosing loops within the current function
 	sws    int // enclosing switches within the current function (innermost breakable is a switch if swInner)
@@ -274,7 +275,7 @@ func (g *gctx) allowed(k string) bool {
 	}
 	switch k {
 	case "yield", "yieldfrom":
-		if !g.inGen {
+		if !g.inGen || g.noYield > 0 {
 			return false
 		}
 		if k == "yieldfrom" && !g.hasDelegTarget() {
@@ -325,7 +326,7 @@ func (g *gctx) allowed(k string) bool {
 	case "panic":
 		return g.prof.panics
 	case "genlit":
-		return g.inGen && g.inClosure == 0
+		return g.inGen && g.inClosure == 0 && g.noYield == 0
 	}
 	return true
 }
@@ -502,7 +503,7 @@ func (g *gctx) simpleInit(allowYield bool) *Stmt {
 		}
 		return g.evStmt()
 	case 3:
-		if allowYield && g.inGen {
+		if allowYield && g.inGen && g.noYield == 0 {
 			g.noteYield()
 			g.prog.tag("yield-in-init")
 			return &Stmt{K: "yield", E: g.intExpr(1)}
@@ -704,7 +705,15 @@ func (g *gctx) forStmt() []*Stmt {
 	counter := ""
 	switch {
 	case form < 5: // three-clause with counter
-		yieldInit := g.inGen && g.pct(10, "yieldinit")
+		yieldInit := g.inGen && g.noYield == 0 && g.pct(10, "yieldinit")
+		// a yield-free three-clause loop written directly in a generator stays a native loop: its counter is a per-iteration
+		// variable like anywhere else and may be captured by closures that outlive the iteration
+		native := g.inGen && g.noYield == 0 && !yieldInit && g.pct(25, "nativeloop")
+		if native {
+			g.noYield++
+			defer func() { g.noYield-- }()
+			g.prog.tag("yield-free-loop-in-generator")
+		}
 		var i string
 		if yieldInit {
 			i = g.fresh("x") // declared in the enclosing block, before the loop
@@ -731,10 +740,10 @@ func (g *gctx) forStmt() []*Stmt {
 		// the variable of a 3-clause loop written directly in a generator is hoisted by go-co (shared between
 		// iterations): closures must not capture it there (design exclusion). Inside a plain closure the loop
 		// stays native, so capturing is allowed.
-		g.declare(vinfo{name: i, typ: "int", hdr: g.inGen})
+		g.declare(vinfo{name: i, typ: "int", hdr: g.inGen && !native})
 		s.E = &Expr{K: "cmp", Op: "<", L: &Expr{K: "var", Name: i}, R: bound}
 		s.Post = &Stmt{K: "incdec", Name: i, Op: "++"}
-		if g.inGen && g.pct(15, "yieldpost") {
+		if g.inGen && g.noYield == 0 && g.pct(15, "yieldpost") {
 			// yielding post statement; the counter is advanced at the top of the body instead
 			g.prog.tag("yielding-post")
 			g.noteYield()
@@ -1105,7 +1114,7 @@ func (g *gctx) pullLoop() *Stmt {
 	first := g.evStmt()
 	g.declare(vinfo{name: vn, typ: "int"})
 	body := []*Stmt{first, {K: "decl", Name: vn, E: &Expr{K: "cur", Name: it.name, T: elem}}}
-	if g.inGen && g.pct(50, "pullyield") {
+	if g.inGen && g.noYield == 0 && g.pct(50, "pullyield") {
 		g.noteYield()
 		body = append(body, &Stmt{K: "yield", E: &Expr{K: "var", Name: vn}})
 	}
